@@ -127,6 +127,35 @@ func loadWorld(repo string) (*World, error) {
 		}
 		w.Funcs[funcKey(g)] = g
 	}
+	// methods of (generic) named types are not reachable from any root: add them through their objects
+	for _, p := range pkgs {
+		if !strings.HasPrefix(p.PkgPath, modulePath) || p.Types == nil {
+			continue
+		}
+		sc := p.Types.Scope()
+		for _, name := range sc.Names() {
+			tn, ok := sc.Lookup(name).(*types.TypeName)
+			if !ok {
+				continue
+			}
+			n, ok := tn.Type().(*types.Named)
+			if !ok {
+				continue
+			}
+			for i := 0; i < n.NumMethods(); i++ {
+				if f := prog.FuncValue(n.Method(i)); f != nil {
+					g := f
+					if g.Origin() != nil {
+						g = g.Origin()
+					}
+					w.Funcs[funcKey(g)] = g
+					for _, af := range g.AnonFuncs {
+						w.Funcs[funcKey(af)] = af
+					}
+				}
+			}
+		}
+	}
 	// contracts
 	cs := newContractSet()
 	for _, p := range pkgs {
